@@ -210,6 +210,22 @@ def obligations(tier, rng):
             continue
         for N in ([h + 3] if quick else [h + 1, h + 4]):
             out.append(ob('C03', 'delay', 'Ffut/%s/N=%d' % (text(f), N), f=f, N=N))
+    # structured depth 3: future operator over a connective over another temporal operator (both operand positions)
+    outers = [lambda g: ('eventually_t', g, 0, 2), lambda g: ('always_t', g, 1, 2), lambda g: ('next', g), lambda g: ('until_t', g, Z, 0, 1),
+              lambda g: ('until_t', Z, g, 1, 2), lambda g: ('not', ('eventually_t', g, 0, 1))]
+    inners = [('eventually_t', X, 0, 1), ('always_t', X, 0, 1), ('once_t', X, 0, 1), ('historically_t', X, 1, 2), ('since_t', X, Z, 0, 1), ('prev', X),
+              ('next', X), ('once', X), ('historically', X), ('since', X, Z), ('until_t', X, Z, 0, 1), ('rise', X)]
+    for oi, o in enumerate(outers):
+        for inn in inners:
+            for c in ('and', 'or', 'implies', 'sub'):
+                for left in (True, False):
+                    if quick and (c == 'sub' or (not left and c != 'implies')):
+                        continue
+                    g = (c, inn, Y) if left else (c, Y, inn)
+                    f = o(g)
+                    h = hor(f)
+                    if h <= 8:
+                        out.append(ob('C03', 'delay', 'depth3/%s/N=%d' % (text(f), h + 3), f=f, N=h + 3))
     if not quick:
         for i in range(400):
             f = refsem.gen_formula(rng, rng.choice([3, 4]),
